@@ -10,7 +10,7 @@ from ..pool import guarded, run_cases
 
 THEOREMS = ["C01_default_in_prose", "C01_default_announced_once", "C01_default_stripped", "C01_quote_idempotent", "C01_example",
             "C01_rest_scan_lossless", "C01_rest_scan_splits_at_tokens", "C01_rest_emit_canonical", "C01_rest_parse_canonical",
-            "C01_rest_roundtrip", "C01_rest_example"]
+            "C01_rest_roundtrip", "C01_rest_roundtrip_no_types", "C01_rest_example"]
 # no " of " / " or ": those make _set_name_and_type infer a type from the prose (parse_adhoc_doc_for_typ, C17's subject), outside Model/RestDoc.v
 REST_WORDS = ["the", "size", "within", "buffer", "in", "bytes", "name", "used", "for", "lookup", "how", "many", "items", "(optional)", "e.g.", "a-b",
               "x_y", "[units]", "100%", "fast;", "slow,", "path/to", "it's", '"quoted"', "param", "type", "return", "rtype", "3.5", "N/A", "é"]
@@ -210,11 +210,13 @@ def rest_impl(c):
           "returns": None if c["ret"] is None else OrderedDict((("return_type", ent(c["ret"])),))}
     text = docstring(ir, docstring_format="rest", word_wrap=False, emit_types=True, emit_default_doc=False)
     back = parse_docstring(text, emit_default_doc=False)
+    text_nt = docstring(ir, docstring_format="rest", word_wrap=False, emit_types=False, emit_default_doc=False)
     shape = lambda r: [r["doc"], [[n, [v.get("doc"), v.get("typ")]] for n, v in r["params"].items()],
                        None if not r["returns"] else [r["returns"]["return_type"].get("doc"), r["returns"]["return_type"].get("typ")]]
     extra = sorted({k for v in back["params"].values() for k in v} - {"doc", "typ"})
     scan = lambda t: [[bool(a), b] for a, b in _scan_phase_rest(t, ARG_TOKENS.rest, RETURN_TOKENS.rest)]
-    return {"text": text, "back": shape(back), "extra_keys": extra, "scan_text": scan(text), "scan_wild": scan(c["scan"])}
+    return {"text": text, "text_no_types": text_nt, "back_no_types": shape(parse_docstring(text_nt, emit_default_doc=False)) if text_nt else None,
+            "back": shape(back), "extra_keys": extra, "scan_text": scan(text), "scan_wild": scan(c["scan"])}
 
 
 def worker(batch):
@@ -230,9 +232,18 @@ def worker(batch):
         if ok:
             want = [[c["doc"], c["params"], c["ret"]] for c, _v in ok]
             m_emit = call_many("rest_emit", [[True] + w for w in want])
+            m_emit_nt = call_many("rest_emit", [[False] + w for w in want])
             m_parse = call_many("rest_parse", [v["text"] for _c, v in ok])
             m_scan = call_many("rest_scan", [v["text"] for _c, v in ok])
             m_wild = call_many("rest_scan", [c["scan"] for c, _v in ok])
+            for (c, v), ment in zip(ok, m_emit_nt):
+                if v["text_no_types"] != ment:
+                    out["corr"].append({"stage": "RestDoc emit (emit_types off)", "input": c, "impl": v["text_no_types"], "model": ment})
+                # the property with types omitted: every parameter that carries a description comes back with name and description
+                if not c.get("adhoc") and all(e[0] is not None for _n, e in c["params"]) and (c["ret"] is None or c["ret"][0] is not None):
+                    w_nt = [c["doc"], [[n, [e[0], None]] for n, e in c["params"]], None if c["ret"] is None else [c["ret"][0], None]]
+                    if v["back_no_types"] != w_nt:
+                        out["items"].append(("C01/rest-domain/roundtrip-no-types", {"want": w_nt, "got": v["back_no_types"], "text": v["text_no_types"]}, c))
             for (c, v), w, me, mp, ms, mw in zip(ok, want, m_emit, m_parse, m_scan, m_wild):
                 out["rest"] += 1
                 if v["back"] != w or v["extra_keys"]:
